@@ -22,6 +22,48 @@ class CmpError(Exception):
     pass
 
 
+# ---------------------------------------------------------------------------
+# decision journal: every solver decision of the current path is appended to a
+# file (O_APPEND, unbuffered) BEFORE the code under test continues.  If the
+# code under test kills the interpreter on some solver-chosen path, the runner
+# solves the journal for concrete arguments and replays them natively.
+
+import json as _json
+import os as _os
+
+NAMES = {}
+_JFD = None
+
+
+def _jfd():
+    global _JFD
+    if _JFD is None:
+        p = _os.environ.get('VERIF_JOURNAL')
+        _JFD = _os.open(p, _os.O_WRONLY | _os.O_APPEND | _os.O_CREAT, 0o644) if p else -1
+    return _JFD
+
+
+def jlog(*rec):
+    fd = _jfd()
+    if fd >= 0:
+        _os.write(fd, (_json.dumps(rec) + '\n').encode())
+
+
+def begin_path(ob_id, named):
+    """called by the generated obligation module at the start of every path"""
+    with _common.untraced():
+        NAMES.clear()
+        if _jfd() < 0:
+            return
+        for n, v in named.items():
+            NAMES[id(v)] = n
+        jlog('PATH', ob_id)
+
+
+def name_of(v):
+    return NAMES.get(id(v))
+
+
 CTL = {'n': 0, 'fail': -1, 'hook': None, 'serial': 0, 'live': False, 'failsym': None, 'failed_at': 0, 'hooksym': None, 'hookfn': None, 'hooked_at': 0}
 
 
@@ -75,6 +117,8 @@ def _tick():
         # symbolic schedule point: "does the environment act during THIS comparison?"
         with _common.traced():
             hit = True if hs == n else False
+        if NAMES:
+            jlog('idx', name_of(hs), n, hit)
         if hit:
             CTL['hooksym'] = None
             CTL['hooked_at'] = n
@@ -85,6 +129,8 @@ def _tick():
         # solver decision, so only indices the operation really reaches fork
         with _common.traced():
             hit = True if fs == n else False
+        if NAMES:
+            jlog('idx', name_of(fs), n, hit)
         if hit:
             CTL['failsym'] = None
             CTL['failed_at'] = n
@@ -131,6 +177,8 @@ def _decide(a, b, which):
                 res = bool(a.v > b.v)
             else:
                 res = bool(a.v == b.v)
+        if NAMES:
+            jlog('cmp', name_of(a.v), which, name_of(b.v), res)
     st[which] = res
     if res:
         for w in ('lt', 'eq', 'gt'):
